@@ -237,7 +237,11 @@ func (ru *Rule) Body(r *rand.Rand) string {
 		fmt.Fprintf(&b, "yloc = xloc + 1%s", ws(r))
 	}
 	if ru.SetStop {
-		fmt.Fprintf(&b, "stag.StopTag = true%s", ws(r))
+		if r.Intn(3) == 0 {
+			fmt.Fprintf(&b, "stagh.S.StopTag = true%s", ws(r))
+		} else {
+			fmt.Fprintf(&b, "stag.StopTag = true%s", ws(r))
+		}
 	}
 	if ru.Fail == FailCustom {
 		fmt.Fprintf(&b, "fl(%d)%s%s%s", id, ws(r), ru.Custom, ws(r))
